@@ -324,7 +324,7 @@ func checkC12(w *World) {
 		w.undecided(P, "R12.4", "store.GetAttribute", 0, "not found")
 	}
 	w.floor(P, "R12.4", 2)
-	w.floor(P, "R12.2", 6)
+	w.floorSites(P, "R12.2", 6)
 
 	// R12.3 shared
 	before := len(w.Obs)
